@@ -3,7 +3,7 @@ import ast
 
 from ..model import (AnalysisError, FUNC_TYPES, U, call_attr, call_name, dotted, enclosing, enclosing_function, guard_texts, short, walk_body, parent, const_str, kwarg)
 from ..cfg import CFG
-from ..util import params, find_calls, stmt_of, has_exit, syn_dominates
+from ..util import params, find_calls, stmt_of, has_exit, syn_dominates, assigns_to
 from ..posflow import facts_of
 
 PS = "insights.parsr"
@@ -198,7 +198,9 @@ def r1_threading(cx):
     ok = len(rets) == 1 and rets[0]["pos"] == set(["P0", "P0+*"]) and rets[0]["valtext"] == "''.join(results)" and len(rz) == 1
     chk(cx, ok, rets[0]["node"] if rets else fn, "String returns the position after the consumed characters and fails below min_length", "return position %s; raise guarded by min_length: %d" % (_fmt(rets[0]["pos"]) if rets else "?", len(rz)))
     wl = [w for w in walk_body(fn.body) if isinstance(w, ast.While)]
-    chk(cx, len(wl) == 1 and U(wl[0].test) == "p in self.chars or p == '\\\\'", wl[0] if wl else fn, "String consumes while the character is allowed (or an escape)", short(wl[0].test) if wl else "?")
+    # one scanning loop; which characters it accepts is a value-level matter (not decided), that it stops is: either its test or a break ends it
+    okw = len(wl) == 1 and (U(wl[0].test) != "True" or any(isinstance(b, ast.Break) for b in walk_body(wl[0].body)))
+    chk(cx, okw, wl[0] if wl else fn, "String consumes in one scanning loop that ends at the first character it does not accept", short(wl[0].test) if wl else "?")
     fn, f = F["Literal"]
     rets = f.returns
     for r in rets:
@@ -340,7 +342,26 @@ def r4_json(cx):
         ok = e is not None and isinstance(e, ast.Call) and call_name(e) == "Literal" and const_str(e.args[0]) == lit and kwarg(e, "value") is not None and U(kwarg(e, "value")) == val
         cx.require(ok, e or m.tree.body[0], "literal %s carries the Python constant %s" % (lit, val), construct="%s = %s" % (nm, U(e)))
     jo = d.get("JsonObject")
-    ok = jo is not None and "KVPairs.map(lambda res: dict(((k, v) for k, v in res)))" in U(jo) and U(jo).startswith("LeftCurly >>") and U(jo).endswith("<< RightCurly")
+    def _dict_fold(f):
+        """Does the callable fold a sequence of pairs into a dict in order, later duplicates overriding?"""
+        if isinstance(f, ast.Lambda) and len(f.args.args) == 1:
+            a = f.args.args[0].arg
+            return U(f.body) in ("dict(((k, v) for k, v in %s))" % a, "dict(%s)" % a, "{k: v for k, v in %s}" % a)
+        if isinstance(f, ast.Name) and m.has(f.id) and isinstance(m.get(f.id), FUNC_TYPES):
+            g = m.get(f.id)
+            ps_ = params(g)
+            body = [s_ for s_ in g.body if not (isinstance(s_, ast.Expr) and isinstance(s_.value, ast.Constant))]
+            if len(ps_) == 1 and len(body) == 1 and isinstance(body[0], ast.Return):
+                return U(body[0].value) in ("dict(((k, v) for k, v in %s))" % ps_[0], "dict(%s)" % ps_[0], "{k: v for k, v in %s}" % ps_[0])
+            if len(ps_) == 1 and len(body) == 3 and isinstance(body[0], ast.Assign) and U(body[0].value) in ("{}", "dict()") and isinstance(body[1], ast.For) and isinstance(body[2], ast.Return):
+                acc = U(body[0].targets[0])
+                lp_ = body[1]
+                if U(lp_.iter) == ps_[0] and isinstance(lp_.target, ast.Tuple) and len(lp_.target.elts) == 2 and len(lp_.body) == 1 and U(body[2].value) == acc:
+                    k_, v_ = [U(e) for e in lp_.target.elts]
+                    return U(lp_.body[0]) == "%s[%s] = %s" % (acc, k_, v_)
+        return False
+    mp = [c for c in ast.walk(jo) if isinstance(c, ast.Call) and call_attr(c) == "map" and U(c.func.value) == "KVPairs"] if jo is not None else []
+    ok = jo is not None and len(mp) == 1 and len(mp[0].args) == 1 and _dict_fold(mp[0].args[0]) and U(jo).startswith("LeftCurly >>") and U(jo).endswith("<< RightCurly")
     cx.require(ok, jo or m.tree.body[0], "object pairs are folded into a dict in order (later duplicates win, like the standard decoder)", construct="JsonObject <= %s" % U(jo))
     ja = d.get("JsonArray")
     cx.require(ja is not None and U(ja) == "LeftBracket >> JsonValue.sep_by(Comma) << RightBracket", ja or m.tree.body[0], "arrays are comma separated values in brackets", construct="JsonArray <= %s" % U(ja))
@@ -348,7 +369,12 @@ def r4_json(cx):
     cx.require(sv is not None and U(sv) == "Number | QuotedString | JsonObject | JsonArray | TRUE | FALSE | NULL", sv or m.tree.body[0], "a value is one of the seven JSON alternatives", construct="SimpleValue = %s" % U(sv))
     ld = m.func("loads", "C19.R4")
     rets = [r for r in walk_body(ld.body) if isinstance(r, ast.Return)]
-    cx.require(len(rets) == 1 and U(rets[0].value) == "Top(data)[0]", ld, "loads returns the value (first element of Top's sequence)", construct=short(rets[0]) if rets else "?")
+    ok = len(rets) == 1 and U(rets[0].value) == "Top(data)[0]"
+    if not ok and len(rets) == 1 and isinstance(rets[0].value, ast.Name):
+        # value, _eof = Top(data); return value
+        un = [a for a in walk_body(ld.body) if isinstance(a, ast.Assign) and isinstance(a.targets[0], ast.Tuple) and len(a.targets[0].elts) == 2 and U(a.value) == "Top(data)"]
+        ok = len(un) == 1 and U(un[0].targets[0].elts[0]) == rets[0].value.id and len(assigns_to(ld, rets[0].value.id)) == 1
+    cx.require(ok, ld, "loads returns the value (first element of Top's sequence)", construct=short(rets[0]) if rets else "?")
 
 
 INPLACE = {ast.BitOr: "Choice", ast.Add: "Sequence", ast.Mult: "Lift"}
